@@ -1837,6 +1837,9 @@ class ListProxy(list):
                 'Cannot pop an object from {clsname}.objects if '
                 'objects was not declared as a dictionary.'
             )
+        if len(args) > 1 and index not in self._parameter.names:
+            # (nothing to remove: the default, as for a dictionary)
+            return args[1]
         with self._trigger():
             object = self._parameter.names.pop(*args)
             super().remove(object)
